@@ -66,6 +66,7 @@ FAULTS = {
     "set_value_unknown": (["param", "param_bspline"], [0], True),
     "set_initial_param": (["param", "param_bspline"], [0, 1, 2], True),
     "set_initial_unknown": (["param", "param_bspline"], [0], True),
+    "set_initial_param_horizon": (["chain"], [0, 1], True),       # a guess given through ocp.T / ocp.t0 while the horizon is a parameter
     "grid_subject_to": (["chain"], [0], True),
     "grid_subject_to_point": (["chain"], [0, 1], True),
     "grid_sample": (["chain"], [0], True),
@@ -212,6 +213,11 @@ def late_fault(ocp, st, S, fault, pos, sol=None):
         st.set_initial(S["pg"] if pos == 0 else (S["pc"] if pos == 1 else S["pb"]), 1.0)
     elif fault == "set_initial_unknown":
         st.set_initial(ca.MX.sym("nobody"), 1.0)
+    elif fault == "set_initial_param_horizon":
+        hp = st.parameter()
+        st.set_value(hp, 2.0 if pos == 0 else 0.0)
+        (st.set_T if pos == 0 else st.set_t0)(hp)
+        st.set_initial(st.T if pos == 0 else st.t0, 1.5)
     elif fault == "grid_subject_to":
         st.subject_to(x0 <= 3, grid="controls")
     elif fault == "grid_subject_to_point":
